@@ -160,7 +160,7 @@ theorem calcPeaksLoop_uses :
             exact Or.inr ⟨item, ha item (by simp), Uses.refl _⟩
           · exact hl l h'
         · simp only [hp, if_false] at h
-          cases hc : calcPeakLoop Expr.node pk (2 * (pk + 2) + 1) [(p, item, 0)] proof with
+          cases hc : calcPeakLoop Expr.node pk (peakFuel pk 1) [(p, item, 0)] proof with
           | none => simp [hc] at h
           | some r =>
             obtain ⟨rr, proof'⟩ := r
@@ -175,7 +175,7 @@ theorem calcPeaksLoop_uses :
       | cons m2 mrest2 =>
         simp only at h
         simp only [List.map_cons, List.length_cons] at h
-        cases hc : calcPeakLoop Expr.node pk (2 * (pk + 2) + (mrest2.length + 1 + 1))
+        cases hc : calcPeakLoop Expr.node pk (peakFuel pk (mrest2.length + 1 + 1))
             ((m1.1, m1.2, 0) :: (m2.1, m2.2, 0) :: List.map (fun l => (l.1, l.2, 0)) mrest2) proof with
         | none => simp [hc] at h
         | some r =>
